@@ -36,9 +36,9 @@ TRUSTED = [
 
 CLAIMED = True
 MANIFEST = {
- "level_text": "Theorems (all instants, no bound): every in-band integer spelling (s/ms/us/ns) of an instant normalises to the floor of the instant, 20+ digit magnitudes are rejected. The division operator and digit bands of the model are regenerated from src/shared/time.rs on every run, and the model's TimeParser (RFC 3339, date-only, numeric strings, JSON numbers) is run against the real TimeParser on generated and mutated spellings.",
+ "level_text": "Theorems (all instants, no bound unless stated): every in-band integer spelling (s/ms/us/ns) of an instant normalises to the floor of the instant and 20+ digit magnitudes are rejected; Hinnant's calendar algorithms are mutually inverse on all of Z (one 400-year cycle checked exhaustively by the kernel, extended by the shift lemmas); the model of chrono's RFC 3339 parser inverts the printer, hence EVERY ISO spelling (any offset |off| <= 23:59 written Z/z/+HH:MM/-HH:MM/U+2212, any fraction digits, separator T/t/space, surrounding white space) of an instant in years 0000..9999 parses to the floor of the instant, and agrees with the integer spellings; date-only spellings give midnight UTC. Call sites (payload normaliser, WHERE rows, SINCE rows, planner literal rewriting, zone pruner, materialised-query SINCE) read every literal as the same second (sites_agree), and the zone pruner over the artifacts of the temporal builder keeps every zone holding a matching event when literal and stamps lie in [0, 2^32) (prune_sound_outside_known); five classes outside that are refuted with witnesses and reported as known findings. The digit bands / division operator are regenerated from src/shared/time.rs; the model of TimeParser and of the six call sites is run against the real code (TimeParser, PayloadTimeNormalizer, ConditionEvaluatorBuilder, QueryPlan + FilterGroupBuilder::build_all, TemporalIndexBuilder + TemporalPruner, MaterializedQuerySpecExt::delta_command) on generated and mutated spellings.",
  "design_ref": "DESIGN.md \u00a76 C16",
- "level_note": "Trusted: Coq kernel; tools/gen_params.py; ExtrOcamlBasic extraction + OCaml driver; the Rust harness; CPython datetime (oracle). chrono's parsers are modelled by hand (differentially tested, not proved); named time zones not modelled."
+ "level_note": "Trusted: Coq kernel (vm_compute for the exhaustive 400-year cycle and closed witnesses); tools/gen_params.py; ExtrOcamlBasic extraction + OCaml driver; the Rust harness (condition builders observed through Debug); CPython datetime (oracle). chrono's parsers are modelled by hand (differentially tested, not proved); the printer theorems cover four-digit years; named time zones, PER bucketing and the engine-level row selection are not modelled."
 }
 
 EPOCH = datetime.datetime(1970, 1, 1)
@@ -161,6 +161,7 @@ def cases(rng, tier):
                 s = s[:pos] + s[pos:pos + 2] + s[pos:]
         add("malformed", f"time_str {rng.choice(['dt', 'd'])} {hx(s)}", None, s)
     site_cases(rng.fork("sites"), tier, add, out)
+    out.extend(engine_cases(rng.fork("engine"), tier))
     return out
 
 
@@ -298,11 +299,117 @@ def site_cases(rng, tier, add, out):
                         "show": f"since={lit!r} watermark=({wm},{eid})", "v": exp, "wm": wm, "eid": eid, "lit": lit})
 
 
+
+# ---------------------------------------------------------------- engine level: WHERE / SINCE selection over spellings
+SQL_OP = {"eq": "=", "neq": "!=", "gt": ">", "gte": ">=", "lt": "<", "lte": "<="}
+FINDINGS_DS = [(1, -100), (2, -50), (3, 0), (4, 0), (5, 10), (6, 259200), (7, 4295399296), (8, 4295399297), (9, -5), (10, 500)]
+
+
+def _eng_query(op, lit, quoted, since):
+    if since:
+        return f'QUERY ev SINCE "{lit}" USING t'
+    return f'QUERY ev WHERE t {SQL_OP[op]} ' + (f'"{lit}"' if quoted else lit)
+
+
+def engine_cases(rng, tier):
+    """Two lifetimes of the real engine (DEFINE ev {k:int, t:datetime}; STORE; query from memory; FLUSH; query the
+    segment; zones of 2 events in store order).  `clean`: stamps and literals in [0, 2^32), operators = > >= < <= and
+    SINCE — must be exact in both phases.  `findings`: the minimal data set of the known classes."""
+    out = []
+
+    def add(ds, events, op, lit, v, quoted=True, since=False):
+        q = _eng_query(op, lit, quoted, since)
+        for phase in ("mem", "seg"):
+            out.append({"kind": "engine_sel", "line": f"engine {ds} {phase} {hx(q)}", "expect": None, "show": f"[{ds}/{phase}] {q}",
+                        "ds": ds, "events": events, "phase": phase, "q": q, "op": "gte" if since else op, "v": v,
+                        "since_sem": since, "lit": lit})
+    # clean data set
+    base_t = rng.range(10 ** 9, 4 * 10 ** 9)
+    ev = []
+    for k in range(1, 9):
+        ev.append((k, max(0, min(U32 - 1, base_t + rng.choice([0, 0, 1, -1, 3600, -86400, rng.range(-10 ** 6, 10 ** 6)])))))
+    nq = 6 if tier == "quick" else 40
+    for _ in range(nq):
+        t = rng.choice([x for _, x in ev]) + rng.choice([0, 0, 1, -1])
+        t = max(0, min(U32 - 1, t))
+        lit, exp = literal_for(t, rng.choice([0, 500000000]), rng)
+        if exp is None or any(ord(ch) > 127 for ch in lit):
+            lit, exp = str(t), t
+        op = rng.choice(OPS)
+        add("clean", ev, op, lit, exp)
+        if rng.chance(1, 2):
+            add("clean", ev, op, str(t), t, quoted=False)
+        if rng.chance(1, 2):
+            add("clean", ev, "gte", lit, exp, since=True)
+    # the known classes, minimal
+    f = FINDINGS_DS
+    add("findings", f, "eq", "500", 500, quoted=False)                       # PreEpochZoneNotInCalendar
+    add("findings", f, "gte", "1970-01-01T00:00:00Z", 0)                      # PreEpochZoneNotInCalendar (k=10)
+    add("findings", f, "gt", "1969-12-31T23:59:59Z", -1)                      # NegativeInstantClampedByPruner / PreEpoch
+    add("findings", f, "eq", "1969-12-31T23:59:10Z", -50)
+    add("findings", f, "gte", "1980-01-01T00:00:00Z", 315532800)              # CalendarBucketWrapsAfter2106
+    add("findings", f, "neq", "500", 500, quoted=False)                       # TemporalNeqPrunesAllZones
+    add("findings", f, "gte", "10000000000000000000", None, since=True)       # UnparsableSinceU64WrapsNegative
+    add("findings", f, "gte", "1970-01-02T00:00:00Z", 86400)                  # fine
+    return out
+
+
+def run_engine_cases(cases_):
+    """impl output of every engine case: 'R k,k,...' (sorted) or 'ERR ...'."""
+    import engine
+    res = {}
+    by_ds = {}
+    for i, c in enumerate(cases_):
+        by_ds.setdefault(c["ds"], []).append(i)
+    for ds, idx in by_ds.items():
+        e = engine.Engine(event_per_zone=2, fill_factor=100)
+        try:
+            e.start()
+            e.cmd('DEFINE ev FIELDS { k: "int", t: "datetime" }')
+            for k, t in cases_[idx[0]]["events"]:
+                e.cmd('STORE ev FOR c1 PAYLOAD {"k": %d, "t": %d}' % (k, t))
+
+            def ask(q):
+                r = e.rows(q)
+                if r["status"] != 200:
+                    return f"ERR {r['status']}"
+                ks = sorted(int(x["k"]) for x in r["rows"] if isinstance(x, dict) and x.get("k") is not None)
+                return "R " + (",".join(str(k) for k in ks) if ks else "-")
+            for i in idx:
+                if cases_[i]["phase"] == "mem":
+                    res[i] = ask(cases_[i]["q"])
+            e.cmd("FLUSH")
+            e.cmd("!flushwait")
+            e.cmd("!wal_drained 3000")
+            e.cmd("!sleep 5")
+            for i in idx:
+                if cases_[i]["phase"] == "seg":
+                    res[i] = ask(cases_[i]["q"])
+        except Exception as ex:
+            for i in idx:
+                res.setdefault(i, f"ABORT")
+        finally:
+            e.destroy()
+    return [res[i] for i in range(len(cases_))]
+
+
 def run_sides(cases_, model_ok):
-    return base.run_sides_fn(cases_, model_ok)
+    fn_idx = [i for i, c in enumerate(cases_) if c.get("kind") != "engine_sel"]
+    en_idx = [i for i, c in enumerate(cases_) if c.get("kind") == "engine_sel"]
+    impl, model = [None] * len(cases_), [None] * len(cases_)
+    fi, fm = base.run_sides_fn([cases_[i] for i in fn_idx], model_ok)
+    for j, i in enumerate(fn_idx):
+        impl[i], model[i] = fi[j], fm[j]
+    if en_idx:
+        ei = run_engine_cases([cases_[i] for i in en_idx])
+        for j, i in enumerate(en_idx):
+            impl[i] = ei[j]
+    return impl, model
 
 
 def same(c, impl, model):
+    if c.get("kind") == "engine_sel":
+        return True        # engine-level selection is checked by the oracle only (not modelled)
     return impl == model
 
 
@@ -382,6 +489,18 @@ def oracle(c, impl):
             return (f"the pruner answered {impl} and so drops zone(s) {lost} that hold events satisfying "
                     f"{c['op']} {c['lit']!r} (= second {c['v']}): {c.get('show')}")
         return None
+    if kind == "engine_sel":
+        if not impl or not impl.startswith("R "):
+            return f"engine answered {impl} to {c.get('show')}"
+        got = set() if impl == "R -" else set(int(x) for x in impl[2:].split(","))
+        if c["v"] is None:
+            truth = set(k for k, _ in c["events"])          # SINCE that no site parses is ignored: every row
+        else:
+            truth = set(k for k, t in c["events"] if _cmp(c["op"], t, c["v"]))
+        if got != truth:
+            return (f"{c.get('show')} returned events k={sorted(got)}, the stored instants satisfying the comparison "
+                    f"with second {c['v']} are k={sorted(truth)} (missing {sorted(truth - got)}, extra {sorted(got - truth)})")
+        return None
     if kind == "site_matspec":
         v, wm, eid = c["v"], c["wm"], c["eid"]
         if v is None or (wm == 0 and v < 0):
@@ -426,6 +545,29 @@ def classify(c, impl):
         if v is not None and v < 0 and f.get("PR") == "0":
             return "NegativeInstantClampedByPruner"
         return None
+    if kind == "engine_sel":
+        if c["phase"] != "seg" or not impl or not impl.startswith("R "):
+            return None                                      # rows in memory must be exact
+        got = set() if impl == "R -" else set(int(x) for x in impl[2:].split(","))
+        tof = dict(c["events"])
+        truth = set(tof) if c["v"] is None else set(k for k, t in c["events"] if _cmp(c["op"], t, c["v"]))
+        if got - truth:
+            return None                                      # extra rows are never a known class
+        # zones of two events in store order
+        zone_of = {k: [x for _, x in c["events"][(i // 2) * 2:(i // 2) * 2 + 2]] for i, (k, _) in enumerate(c["events"])}
+        lost = truth - got
+        if c["op"] == "neq":
+            return "TemporalNeqPrunesAllZones"
+        if c["v"] is None:
+            u = _u64(c["lit"])
+            return "UnparsableSinceU64WrapsNegative" if u is not None and u >= 2 ** 63 else None
+        if lost and all(any(x < 0 for x in zone_of[k]) for k in lost):
+            return "PreEpochZoneNotInCalendar"
+        if c["v"] < 0:
+            return "NegativeInstantClampedByPruner"
+        if c["v"] >= U32 or any(x >= U32 for k in lost for x in zone_of[k]):
+            return "CalendarBucketWrapsAfter2106"
+        return None
     if kind in ("site_prune", "site_prune_since"):
         lost = _lost_zones(c, impl) or []
         stamps = {z: st for z, st in c["zones"]}
@@ -447,6 +589,8 @@ def classify(c, impl):
 
 def nontrivial_key(c, impl):
     kind = c.get("kind", "")
+    if kind == "engine_sel":
+        return (kind, c["phase"], c["q"], impl) if impl and impl.startswith("R ") and impl != "R -" else None
     if kind.startswith("site_"):
         if impl and impl not in ("NONE", "E", "N", "PANIC", "ABORT", "UNKNOWN_PROBE") and not impl.startswith("PDT=E"):
             return (kind, c.get("op"), impl[:80])
